@@ -108,6 +108,7 @@ class StandardQTomographyBasedWeightedRelativeEntropy(WeightedRelativeEntropy):
         """
         self._matA = np.copy(qt.calc_matA())
         self._vecB = np.copy(qt.calc_vecB())
+        self._num_var = qt.num_variables
         self._calc_extend_weights()
 
         self._on_func_prob_dists = True
